@@ -233,7 +233,8 @@ pub fn tree_walker(
                 target_base.clone()
             };
 
-            if config.no_clobber && target.exists() {
+            // symlink_metadata: a dangling link is still an existing entry.
+            if config.no_clobber && target.symlink_metadata().is_ok() {
                 let msg = "Destination file exists and --no-clobber is set.";
                 stats.send(StatusUpdate::Error(
                     XcpError::DestinationExists(msg, target)))?;
